@@ -1,15 +1,16 @@
 (* C16 - interactive definitions and pop compose like a stack.
    Property theorems only; each is closed by an exact reference to a lemma of
    Interp/StackProofs.v.  The model (Interp/Stack.v) is interpreter.go after the
-   fixes N2 and N5; parsing, analysis and evaluation are ARBITRARY functions
+   fixes N2, N5, N30 and N32; parsing, analysis and evaluation are ARBITRARY functions
    (all theorems quantify over them), so nothing here depends on the engine.
 
    Reading guide: [run cs] is the interpreter state after the command history
    [cs] starting from interpreter.New; [live cs] are the commands of [cs] that
    are still live, in order: a define that succeeded joins the ONE interactive
    fragment, a load (successful or not) or a pop ends the interactive fragment,
-   a load whose fragment was pushed is live until a pop without interactive
-   definitions removes it. *)
+   a load that succeeded is live until a pop without interactive definitions
+   removes it; the same pathset may be live several times ([pushed r] holds for
+   [r = ROk] only). *)
 From Coq Require Import List ZArith Bool.
 From MV Require Import Interp.Stack Interp.StackProofs Interp.StackTables.
 Import ListNotations.
@@ -78,8 +79,33 @@ Theorem rejected_define_noop :
 Proof. exact rejected_define_noop_l. Qed.
 Print Assumptions rejected_define_noop.
 
+(* a load that is rejected (missing file or parse error, analysis, evaluation) pushes
+   nothing - in ANY state; what remains of it is that Load drops the interactive definitions
+   first ("::load <path>  pops interactive buffer and loads source file", interpreter.go) *)
+Theorem rejected_load_drops_only_interactive :
+  forall (prog : Type) (p_decls : prog -> list (pred * declid)) (parse : src -> bool)
+         (analyse : src -> ktab -> option prog) (eval : prog -> list fact -> list fact * bool)
+         (p : path) (s : state prog),
+    snd (load prog p_decls parse analyse eval p s) <> ROk ->
+    fst (load prog p_decls parse analyse eval p s) = reset_interactive [] s.
+Proof. exact rejected_load_l. Qed.
+Print Assumptions rejected_load_drops_only_interactive.
+
+(* hence after any history that left no interactive definitions a rejected load leaves the
+   whole state unchanged *)
+Theorem rejected_load_noop :
+  forall (prog : Type) (p_decls : prog -> list (pred * declid)) (parse : src -> bool)
+         (analyse : src -> ktab -> option prog) (eval : prog -> list fact -> list fact * bool)
+         (cs : list cmd) (p : path),
+    has_interactive (run prog p_decls parse analyse eval cs) = false ->
+    snd (load prog p_decls parse analyse eval p (run prog p_decls parse analyse eval cs)) <> ROk ->
+    fst (load prog p_decls parse analyse eval p (run prog p_decls parse analyse eval cs))
+    = run prog p_decls parse analyse eval cs.
+Proof. exact rejected_load_noop_l. Qed.
+Print Assumptions rejected_load_noop.
+
 (* pop is exact: after a load / a first define that took effect, pop gives back the very
-   state before it *)
+   state before it (for every pathset, also one that is already on the stack) *)
 Theorem pop_exact_after_load :
   forall (prog : Type) (p_decls : prog -> list (pred * declid)) (parse : src -> bool)
          (analyse : src -> ktab -> option prog) (eval : prog -> list fact -> list fact * bool)
@@ -141,10 +167,11 @@ Proof. exact lower_layers_untouched. Qed.
 Print Assumptions pushes_write_top_only.
 
 (* -------------------------------------------- non-vacuity and the witnesses *)
-(* predicates a=1 b=2 c=3 d=4; files a.mg=1 ("a(10).") b.mg=2 ("b(X) :- a(X)."); chunks
+(* predicates a=1 b=2 c=3 d=4 e=5 u=6; files a.mg=1 ("a(10).") b.mg=2 ("b(X) :- a(X).")
+   e.mg=3 (no clause) div.mg=4 ("e(50). u(Y) :- a(X), Y = fn:div(X, 0)."); chunks
    1 = "c(30)."  2 = a rule rejected by analysis  3 = "d(40)." *)
 Definition ex_tables : tables := {|
-  t_parse := [(SFile 1, true); (SFile 2, true); (SInter [1], true); (SInter [1; 2], true);
+  t_parse := [(SFile 1, true); (SFile 2, true); (SFile 3, true); (SFile 4, true); (SInter [1], true); (SInter [1; 2], true);
               (SInter [1; 3], true); (SInter [1; 2; 3], true); (SInter [3], true)];
   t_analyse := [((SFile 1, []), Some (1, [(1, 1)]));
                 ((SFile 2, [(1, 1)]), Some (2, [(1, 1); (2, 2)]));   (* Decls: ALL predicates *)
@@ -152,12 +179,16 @@ Definition ex_tables : tables := {|
                 ((SInter [1; 2], []), None);
                 ((SInter [1; 2; 3], []), None);
                 ((SInter [1; 3], []), Some (4, [(3, 4); (4, 4)]));
-                ((SInter [1], [(1, 1)]), Some (5, [(1, 1); (3, 3)]))];
+                ((SInter [1], [(1, 1)]), Some (5, [(1, 1); (3, 3)]));
+                ((SFile 3, []), Some (6, []));                        (* adds no predicate: loads any number of times *)
+                ((SFile 4, [(1, 1)]), Some (7, [(1, 1); (5, 7); (6, 7)]))];
   t_eval := [((1, []), ([(1, 10)], true));
              ((2, [(1, 10)]), ([(2, 20)], true));
              ((3, []), ([(3, 30)], true));
              ((4, []), ([(3, 30); (4, 40)], true));
-             ((5, [(1, 10)]), ([(3, 30)], true))] |}.
+             ((5, [(1, 10)]), ([(3, 30)], true));
+             ((6, []), ([], true));
+             ((7, [(1, 10)]), ([(5, 50)], false))] |}.              (* e(50) is derived, then the division fails *)
 
 (* the history of finding N2 on the fixed model: pop removes b and keeps a; b.mg loads again *)
 Example pop_keeps_lower_fragments :
@@ -188,18 +219,39 @@ Example pop_exact_example :
   store (t_run ex_tables [CLoad 1; CLoad 2]) = [[(2, 20)]; [(1, 10)]; []].
 Proof. vm_compute. repeat split; repeat eexists. Qed.
 
+(* hypotheses of the rejected_load theorems are met: over a.mg the file div.mg passes
+   analysis and fails in evaluation; nothing of it stays *)
+Example rejected_load_example :
+  has_interactive (t_run ex_tables [CLoad 1]) = false /\
+  snd (t_step ex_tables (t_run ex_tables [CLoad 1]) (CLoad 4)) = REval /\
+  t_run ex_tables [CLoad 1; CLoad 4] = t_run ex_tables [CLoad 1] /\
+  t_live ex_tables [CLoad 1; CLoad 4] = [CLoad 1] /\
+  query (t_run ex_tables [CLoad 1; CLoad 4]) 5 = None /\
+  t_run ex_tables [CLoad 1; CLoad 4; CPop] = init.
+Proof. vm_compute. repeat split. Qed.
+
+(* the same pathset twice: two stack entries that pop one at a time (history of finding N30) *)
+Example same_pathset_twice_example :
+  t_live ex_tables [CLoad 3; CLoad 3] = [CLoad 3; CLoad 3] /\
+  length (frags (t_run ex_tables [CLoad 3; CLoad 3])) = 2%nat /\
+  t_run ex_tables [CLoad 3; CLoad 3; CPop] = t_run ex_tables [CLoad 3] /\
+  t_live ex_tables [CLoad 3; CLoad 3; CPop] = [CLoad 3] /\
+  t_run ex_tables [CLoad 3; CLoad 3; CPop; CPop] = init /\
+  t_live ex_tables [CLoad 3; CLoad 3; CPop; CPop] = [].
+Proof. vm_compute. repeat split. Qed.
+
 (* ---------------------------- the behaviour before the fixes violates the property *)
 (* N2: popSourceFragment deleted every predicate of the popped fragment's Decls - which
    holds ALL known predicates: after load a; load b; pop the predicate a is unknown (its
    facts are still in the store), while a fresh interpreter after the live commands
    [load a] answers a(10); and b.mg cannot be loaded again *)
 Theorem pop_forgets_refuted :
-  let old := t_run_var ex_tables false true in
+  let old := t_run_var ex_tables false true true in
   query (old [CLoad 1; CLoad 2; CPop]) 1 = None /\
   visible (old [CLoad 1; CLoad 2; CPop]) = [(1, 10)] /\
   t_live ex_tables [CLoad 1; CLoad 2; CPop] = [CLoad 1] /\
   query (t_run ex_tables (t_live ex_tables [CLoad 1; CLoad 2; CPop])) 1 = Some [(1, 10)] /\
-  snd (t_step_var ex_tables false true (old [CLoad 1; CLoad 2; CPop]) (CLoad 2)) = RAnalysis.
+  snd (t_step_var ex_tables false true true (old [CLoad 1; CLoad 2; CPop]) (CLoad 2)) = RAnalysis.
 Proof. vm_compute. repeat split. Qed.
 Print Assumptions pop_forgets_refuted.
 
@@ -207,12 +259,40 @@ Print Assumptions pop_forgets_refuted.
    after the rejected chunk 2 the fact c(30) is gone and every later define fails,
    although the rejected define should have been a no-op *)
 Theorem failed_define_refuted :
-  let old := t_run_var ex_tables true false in
-  snd (t_step_var ex_tables true false (old [CDefine 1]) (CDefine 2)) = RAnalysis /\
+  let old := t_run_var ex_tables true false true in
+  snd (t_step_var ex_tables true false true (old [CDefine 1]) (CDefine 2)) = RAnalysis /\
   query (old [CDefine 1]) 3 = Some [(3, 30)] /\
   query (old [CDefine 1; CDefine 2]) 3 = None /\
   buffer (old [CDefine 1; CDefine 2]) = [1; 2] /\
-  snd (t_step_var ex_tables true false (old [CDefine 1; CDefine 2]) (CDefine 3)) = RAnalysis /\
+  snd (t_step_var ex_tables true false true (old [CDefine 1; CDefine 2]) (CDefine 3)) = RAnalysis /\
   snd (t_step ex_tables (t_run ex_tables [CDefine 1; CDefine 2]) (CDefine 3)) = ROk.
 Proof. vm_compute. repeat split. Qed.
 Print Assumptions failed_define_refuted.
+
+(* N32: a Load whose evaluation failed kept its fragment: after load a; load div the
+   predicate e is known and answers the fact derived before the error, and the next pop
+   removes the rejected file instead of a.mg - while a fresh interpreter after the live
+   commands [load a] does not know e, and pop empties it *)
+Theorem failed_load_refuted :
+  let old := t_run_var ex_tables true true false in
+  snd (t_step_var ex_tables true true false (old [CLoad 1]) (CLoad 4)) = REval /\
+  query (old [CLoad 1; CLoad 4]) 5 = Some [(5, 50)] /\
+  query (old [CLoad 1; CLoad 4; CPop]) 1 = Some [(1, 10)] /\
+  t_live ex_tables [CLoad 1; CLoad 4] = [CLoad 1] /\
+  query (t_run ex_tables (t_live ex_tables [CLoad 1; CLoad 4])) 5 = None /\
+  query (t_run ex_tables [CLoad 1; CLoad 4; CPop]) 1 = None.
+Proof. vm_compute. repeat split. Qed.
+Print Assumptions failed_load_refuted.
+
+(* N30: with sourceFragments keyed by pathset (Stack.step_keyed; None = nil dereference)
+   the second load of e.mg overwrites the entry of the first, the first pop deletes it and
+   the second pop finds no fragment, while the live commands after the first pop are
+   [load e] and a fresh interpreter pops that without complaint *)
+Theorem double_load_refuted :
+  t_run_keyed ex_tables [CLoad 3; CLoad 3; CPop] = Some (t_run ex_tables [CLoad 3], []) /\
+  t_run_keyed ex_tables [CLoad 3; CLoad 3; CPop; CPop] = None /\
+  t_live ex_tables [CLoad 3; CLoad 3; CPop] = [CLoad 3] /\
+  t_run_keyed ex_tables [CLoad 3; CPop] = Some (init, []) /\
+  t_run ex_tables [CLoad 3; CLoad 3; CPop; CPop] = init.
+Proof. vm_compute. repeat split. Qed.
+Print Assumptions double_load_refuted.
